@@ -108,6 +108,24 @@ def replay_mix(pg):
         elif kind == "set" and pg.motors:
             g = pg.group()
             body += [msg(S, "set", pg.motors[0], rng.choice([1.0, 2.0, -1.0]), group=g), msg(S, "wait", None, group=g)]
+    if rng.random() < 0.12:
+        # a checkpoint *after* clear_checkpoint.  The engine (and its documentation) keep the plan non-resumable for the
+        # rest of the call; the statement of C10 reads as if the checkpoint re-armed it.  Either way: if a resume
+        # happens after it, nothing from before that checkpoint may be executed again (the model treats resumability
+        # as unknown from there on and only checks what a resume replays)
+        body.append(msg(S, "clear_checkpoint"))
+        body.append(msg(S, "null"))
+        if pg.motors:
+            g = pg.group()
+            body += [msg(S, "set", pg.motors[0], rng.choice([1.0, 2.0]), group=g), msg(S, "wait", None, group=g)]
+        body.append(msg(S, "checkpoint"))
+        for _ in range(rng.choice([1, 2, 3])):
+            body.append(msg(S, rng.choice(["null", "null", "sleep"]), None))
+            if body[-1]["cmd"] == "sleep":
+                body[-1]["args"] = [0.2]
+        if rng.random() < 0.5:
+            body.append(msg(S, "checkpoint"))
+            body.append(msg(S, "null"))
     if open_:
         body.append(msg(S, "close_run"))
     for d in reversed(staged):
@@ -195,11 +213,12 @@ def model_check(events):
             cache = []
 
     asked = None  # an interruption was accepted while, by the model, a checkpoint existed (the plan is resumable)
+    uncertain = False  # a checkpoint followed clear_checkpoint: resumability is left open, replays are still checked
     for e in events:
         # ---- there is something to resume from exactly when the model says so: an interruption accepted in a
         # resumable section pauses / suspends, it does not abort the plan ("No checkpoint")
         if e.kind == "inject_begin" and e.d["do"] in ("pause", "trip") and e.d.get("state") == "running":
-            if cache is not None and asked is None:
+            if cache is not None and asked is None and not uncertain:
                 asked = e.d["do"]
             continue
         if e.kind == "inject_end" and e.d["do"] in ("pause", "trip"):
@@ -318,10 +337,16 @@ def model_check(events):
         ordinary.add(mid)
         if cache is not None and rewindable and cmd not in UNCACHEABLE:
             cache.append(mid)
-        if cmd in IMPLICIT and cmd != "monitor":  # ('monitor' really awaits: its checkpoint happens on completion)
+        if cmd == "checkpoint" and cache is None:
+            # an explicit checkpoint after clear_checkpoint: whether it re-arms the plan is left open (see replay_mix);
+            # if a resume follows, it may replay only what comes after this checkpoint
+            cache = []
+            uncertain = True
+        elif cmd in IMPLICIT and cmd != "monitor":  # ('monitor' really awaits: its checkpoint happens on completion)
             reset()
         elif cmd == "clear_checkpoint":
             cache = None
+            uncertain = False
             asked = None  # a request still on its way to the loop may legitimately meet the cleared checkpoint
         elif cmd == "rewindable":
             flag = e.d["args"][0] if e.d["args"] else None
